@@ -7,9 +7,9 @@ let () = All.touch ()
    packet): run with an unlimited stack (re-exec once through the shell) *)
 let () =
   if Sys.getenv_opt "GPVERIF_STACK" = None && Array.length Sys.argv >= 3 then begin
-    let q s = Filename.quote s in
-    let cmd = Printf.sprintf "ulimit -s unlimited 2>/dev/null || ulimit -s 4000000 2>/dev/null; GPVERIF_STACK=1 exec %s %s %s"
-        (q Sys.executable_name) (q Sys.argv.(1)) (q Sys.argv.(2)) in
+    let args = String.concat " " (Stdlib.List.map Filename.quote (Array.to_list Sys.argv |> Stdlib.List.tl)) in
+    let cmd = Printf.sprintf "ulimit -s unlimited 2>/dev/null || ulimit -s 4000000 2>/dev/null; GPVERIF_STACK=1 exec %s %s"
+        (Filename.quote Sys.executable_name) args in
     exit (Sys.command cmd)
   end
 
